@@ -424,6 +424,13 @@ write_code(ostream &out_code,ostream * out_include, InterrogateModuleDef *def) {
   }
   declaration_bodies << "\n";
 
+  if (function_bodies.fail() || declaration_bodies.fail()) {
+    // Something went wrong while we collected the code in memory (an output
+    // stream swallows a failed allocation and just stops accepting data), so
+    // what we are about to write is not all of it.  Let the caller know.
+    out_code.setstate(std::ios::badbit);
+  }
+
 // if(out_include != NULL) (*out_include) << declaration_bodies.str(); else
   out_code << declaration_bodies.str();
 
